@@ -4,5 +4,6 @@ CONSTANTS
   Jobs = {1, 2}
   MaxFail = 1
   AllowClose = TRUE
+  AtomicWait = TRUE
 PROPERTIES StrongLiveness
 CHECK_DEADLOCK FALSE
